@@ -7,11 +7,13 @@ WHAT = {
  "C01-b": "Device.terminal_info() cached: stale terminal sites / edges / lengths after the device is re-meshed",
  "C02-a": "retry loop re-runs the kernel with the un-reduced dt and reports the reduced one",
  "C02-b": "early return psi' = w for gamma = 0 leaves |psi'|^2 stale",
+ "C02-c": "stable root formula replaced by the textbook one with a z == 0 guard: catastrophic cancellation for small non-zero z (floating point only)",
  "C03-a": "conjugate of the link variable dropped in the in-place refresh of the Laplacian",
  "C03-b": "cached row / column index arrays of the Laplacian links swapped (refresh path)",
  "C04-a": "operator refresh skipped when the new link exponents are allclose to the old ones",
  "C04-b": "zero link exponents build real-dtype operators; later complex link variables are cast to real",
  "C05-a": "time advanced by the next step's dt instead of the accepted one",
+ "C05-c": "retry loop reduces the kernel's dt but returns the un-reduced tentative dt (frames and records mislabelled after a retried step)",
  "C05-b": "stop test `>` instead of `>=`: one step too many when the end time is hit exactly",
  "C06-a": "link entries of the Laplacian refresh re-ordered so that they no longer match the cached free-row mask (pinned rows overwritten)",
  "C06-b": "terminal value re-imposed only if terminal_psi is truthy: terminal_psi = 0 is not re-imposed (seeded start)",
@@ -29,6 +31,7 @@ WHAT = {
  "C12-b": "adaptivity silently switched off when dt_init == dt_max",
  "C13-a": "floor of the relative-error denominator raised from 1e-20 to 1e-8",
  "C13-b": "screening loop bounded by range(max+1): the non-convergence error can never fire",
+ "C13-c": "Polyak update done in place: the accepted induced potential held by the runner / seed is overwritten by the next step's iterates",
  "C14-a": "falsy option values skipped on save",
  "C14-b": "screening_iterations only written when theta is recorded (stand-alone save without probes)",
  "C15-a": "solution reports the user's relative path instead of the data handler's fresh path",
@@ -37,6 +40,7 @@ WHAT = {
  "C16-b": "cache key of a time-dependent leaf ignores the y coordinates",
  "C17-a": "fixed_sites passed to build_laplacian although terminal_psi is None",
  "C17-b": "rows / columns swapped in the refresh branch for unpinned terminals",
+ "C18-a": "orient() replaced by a rebuild from the exterior ring: set-operation results with a hole are silently filled instead of refused",
  "C19-a": "current balance tested with np.isclose default tolerances (imbalance of 1e-6 accepted)",
  "C19-b": "Device.__eq__ compares holes / terminals with zip (prefix equality): foreign seed accepted",
  "C20-a": "sheet height z0 not converted to metres",
